@@ -341,9 +341,6 @@ package common
 //@ func (*ZeroCopySource).Size
 //@   inline
 
-// transaction root of a hash list (the Bitcoin-style double-SHA-256 binary Merkle root; C03 is the property
-// that ComputeMerkleRoot computes it): named here so that C02 can say which list the header's root is compared with
-//@ uf txRootOf(a ArrU64B256, off uint64, n int) [32]byte
 
 // ---- C03: the transaction root is the Bitcoin-style double-SHA-256 binary Merkle root ----------------------
 // dh: parent of two nodes; mroot(A, o, n): reference root of the n hashes A[o..o+n). Its definition is the
